@@ -255,6 +255,54 @@ func buildC15(tier string) *core.Plan {
 			c15CLI(c, base, target, "json", "yaml", "json")
 			c15CLI(c, map[string]any{"m": map[string]any{"v": core.Clone(bv)}}, map[string]any{"m": map[string]any{"v": core.Clone(tv)}}, "yaml", "json", "yaml")
 		}}
+	// values and keys that carry an escaped dollar: the layer must keep them escaped
+	dollars := []any{1, "x", "$$x", "$$", "a$$b", "$$merge:a", "$$required", "$$$$", `$$"{x}"`, "$$delete", "$$replace"}
+	nd := int64(len(dollars))
+	dollarSpace := core.Space{Name: "escaped-dollar-values-and-keys", N: nd * nd,
+		Desc: func(i int64) any { return map[string]any{"base_value": dollars[i/nd], "target_value": dollars[i%nd]} },
+		Run: func(c *core.Ctx, i int64) {
+			bv, tv := dollars[i/nd], dollars[i%nd]
+			pairs := [][2]any{
+				{map[string]any{"v": bv, "k": 1}, map[string]any{"v": tv, "k": 1}},
+				{map[string]any{"l": []any{bv, "z"}, "k": 1}, map[string]any{"l": []any{tv, "z", bv}, "k": 1}},
+			}
+			if ks, ok := tv.(string); ok {
+				pairs = append(pairs, [2]any{map[string]any{"k": 1}, map[string]any{"k": 1, ks: bv}})
+				if bs, ok := bv.(string); ok && bs != ks {
+					pairs = append(pairs, [2]any{map[string]any{"k": 1, bs: 1}, map[string]any{"k": 1, ks: 1}})
+				}
+			}
+			for _, pr := range pairs {
+				base, target := pr[0], pr[1]
+				c.Eval()
+				c.Trans(4)
+				wit := "dollar: " + core.Canon(base) + " => " + core.Canon(target)
+				want, werr := evalTree(target)
+				if werr != nil {
+					continue
+				}
+				layer, err := c15Diff(base, target)
+				c.Validated()
+				c.Nontrivial()
+				if err != nil {
+					c.Fail("round-trip", "bkld-fails", wit, errStr(err))
+					return
+				}
+				got, err := c15Apply(base, layer)
+				if err != nil {
+					c.Outcome("LAYER-REJECTED")
+					c.Fail("round-trip", "layer-rejected", wit, map[string]any{"layer": layer, "error": errStr(err)})
+					return
+				}
+				if !core.Equal(got, want) {
+					c.Outcome("NOT-REPRODUCED")
+					c.Fail("round-trip", "target-not-reproduced", wit, map[string]any{"layer": layer, "got": got, "want": want})
+					return
+				}
+				c.Outcome("reproduced")
+				c15CLI(c, base, target, "yaml", "json", "yaml")
+			}
+		}}
 	nrt := int64(len(refTargets))
 	refSpace := core.Space{Name: "cli-inputs-with-references", N: int64(len(refBases)) * nrt, Chunk: 1,
 		Desc: func(i int64) any { return map[string]any{"base": refBases[i/nrt], "target": refTargets[i%nrt]} },
@@ -306,7 +354,7 @@ func buildC15(tier string) *core.Plan {
 			c15CLI(c, numBase, numTargets[i/27], fm[i%3], fm[(i/3)%3], fm[(i/9)%3])
 		}}
 	return &core.Plan{
-		Spaces: []core.Space{pairs, listPairs, cli, refSpace, numSpace, kindSpace},
+		Spaces: []core.Space{pairs, listPairs, cli, refSpace, numSpace, kindSpace, dollarSpace},
 		Rule:   "every ordered pair (base, target) of map-rooted, null-free, $-free trees up to N nodes over keys {a,b,l} and scalars {1,2,x}; every pair of lists of <=2 (thorough 3) entries drawn from scalars, sub-lists and maps where one is a subset of another; CLI round trips in format mixes; non-trivial = base differs from target",
 		Assumptions: []string{"in-process runs use cmd/bkld/diff.go copied from /repo's working tree at build time (package clause rewritten, fatal() panics), driven exactly like cmd/bkld/main.go; the CLI space runs the real binaries",
 			"the emitted layer is applied as a second input (`bkl base layer`), where its $match: {} selects the base document"},
@@ -372,8 +420,13 @@ func c15CLI(c *core.Ctx, base, target any, fb, ft, fl string) {
 		c.Fail("cli-round-trip", "layer-rejected", c15Class(base, target)+": "+wit, map[string]any{"stderr": se, "exit": code})
 		return
 	}
+	// what the target file evaluates to (escaped dollars come out unescaped)
+	want := target
+	if outs, err := evalTree(target); err == nil && len(outs) == 1 {
+		want = outs[0]
+	}
 	got, perr := c14ParseText("json", so)
-	if perr != nil || !core.EqualLoose(got, target) {
+	if perr != nil || !core.EqualLoose(got, want) {
 		c.Outcome("CLI-NOT-REPRODUCED")
 		c.Fail("cli-round-trip", "target-not-reproduced", c15Class(base, target)+": "+wit, map[string]any{"stdout": so})
 		return
